@@ -183,9 +183,15 @@ def shipped_stability():
     n = 0
     for perm in itertools.permutations(sorted(classes)):
         for nm in list(perm) + list(reversed(perm)):
-            with warnings.catch_warnings():
-                warnings.simplefilter("ignore")
-                ts = classes[nm]()
+            try:
+                with warnings.catch_warnings():
+                    warnings.simplefilter("ignore")
+                    ts = classes[nm]()
+            except Exception as e:  # noqa
+                for prop in ("C14", "C10"):
+                    fails.append({"property": prop, "signature": "shipped-typeset-cannot-be-constructed",
+                                  "what": "%s() raised %s: %s (constructed after %s in this process)" % (nm, type(e).__name__, str(e)[:120], "/".join(perm))})
+                return fails, n
             n += 1
             cur = (sorted(str(t) for t in ts.types),
                    sorted((str(a), str(b), bool(d["relationship"].inferential)) for a, b, d in ts.relation_graph.edges(data=True)))
